@@ -32,6 +32,9 @@ def run(ctx):
         ok, out = ctx.run_harness(ba, [tra, ctx.tier], tra)
         if ok:
             ctx.validate(TRACE_MODULE, tra, label=vl, min_lines=500)
+    # stage X12 (notes/X12-notes.md): gtx/intersect, vector_query, normalize_dot, handed_coordinate_space, polar_coordinates, extend - GlmX12.tla
+    from props import x12
+    x12.run(ctx)
     ctx.rule("every function of glm/geometric.hpp (dot length distance cross normalize faceforward reflect refract) on vec1..vec4 and the scalar "
              "genType overloads, gtx length2 distance2 l1Norm l2Norm lMaxNorm lxNorm proj perp orthonormalize(vec3,vec3 / mat3) angle "
              "orientedAngle(2D/3D) closestPointOnLine(2D/3D) triangleNormal cross(vec2) mixedProduct; float and double; highp plus every "
